@@ -5,6 +5,7 @@ NEXT Next
 INVARIANTS
   OnlyCurrentTrust
   CurrentTrustSuffices
+  TamperedNeverAccepted
   HistoryIndependent
   Emit
 CHECK_DEADLOCK FALSE
